@@ -15,6 +15,7 @@ EXPLANATION = """
 R11.1 copy-on-write: writers of heap bytes pass make_owned*; R11.1b set_len site classes; R11.2 checked before
 unchecked (12 safe wrappers); R11.3 validators: UTF8::validate_subseq = prefix AND suffix, WTF8 likewise; R11.4
 push_tendril zero-copy merge guarded by all four conditions; R11.5 reviewed normal forms of tendril core.
+R11.6 futf byte-class table over all 256 values and decode thresholds.
 """
 ASSUMPTIONS = ["core::str::from_utf8, ptr::copy_nonoverlapping and the allocator behave as documented"]
 AREA = "tendril_core"
